@@ -6,6 +6,7 @@ import (
 	"fmt"
 	"os/signal"
 	"sort"
+	"strconv"
 	"strings"
 	"syscall"
 	"time"
@@ -22,7 +23,7 @@ import (
 var c02Alphabet = []string{
 	"L:M1", "L:M3-valid", "L:M5-genuine", "X:M1", "X:M3-A-zero", "X:M5-zero-key",
 	"X:M3-wrong-code", "X:M5-wrong-code-S", "X:M5-hkdf-empty-S", "X:M3-A-N", "X:M3-A-2N", "X:M3-no-proof", "X:M3-no-A",
-	"X:M3-replay-L", "X:M5-random-key", "X:M5-replay-L", "X:M5-len0", "X:M5-len15", "X:M5-tag-flipped",
+	"X:M3-replay-L", "X:M5-random-key", "X:M5-replay-L", "X:M5-len0", "X:M5-len15", "X:M5-tag-flipped", "X:M5-zero-key-universal-signature",
 	"X:M1-method1", "X:state-0", "X:state-7", "X:reopen", "L:reopen",
 	"X:M3-A-zero-proof-for-empty-key", "L2:M5-of-L",
 }
@@ -54,7 +55,8 @@ type c02Run struct {
 
 // with the second setup code the legitimate controller has a 124-byte identifier (the longest whose entity file
 // name is legal) with letters of both cases
-var c02LongL = refctl.NewIdentity(strings.Repeat("Controller-With-A-Long-Name/", 5)[:124], "legit-L-long")
+// and bytes that are not valid UTF-8 (the identifier in the key-exchange message is a byte string)
+var c02LongL = refctl.NewIdentity(strings.Repeat("Controller-\xff\xfe\x80-A-Long-Name/", 5)[:124], "legit-L-long")
 
 func (r *c02Run) conn(name string) *c02Conn {
 	cn := r.conns[name]
@@ -239,7 +241,7 @@ func (r *c02Run) step(ev string) bool {
 			body = l.m3
 		}
 		m, err = post(body)
-	case "M5-zero-key", "M5-hkdf-empty-S", "M5-wrong-code-S", "M5-random-key", "M5-len0", "M5-len15", "M5-tag-flipped", "M5-replay-L":
+	case "M5-zero-key", "M5-hkdf-empty-S", "M5-wrong-code-S", "M5-random-key", "M5-len0", "M5-len15", "M5-tag-flipped", "M5-replay-L", "M5-zero-key-universal-signature":
 		var K []byte // the adversary's idea of the SRP session key
 		key := make([]byte, 32)
 		switch op {
@@ -459,16 +461,65 @@ func c02ExecPin(c *fw.Ctx, pin string, hist []string) bool {
 		r.idL = c02LongL
 	}
 	failed := false
+	cur := 0
 	r.fail = func(sig, desc string) {
 		failed = true
-		c.Report(sig, desc+" — history "+strings.Join(hist, ", "), c02Case{Pin: pin, Hist: hist})
+		upto := hist[:cur+1] // the history up to the event that failed
+		shown := upto
+		if len(shown) > 40 {
+			shown = append(append([]string{shown[0], "…"}, shown[len(shown)-9:]...))
+		}
+		c.Report(sig, desc+" — history "+strings.Join(shown, ", "), c02Case{Pin: pin, Hist: upto})
 	}
-	for _, ev := range hist {
+	for i, ev := range hist {
+		cur = i
+		if n, ok := strings.CutPrefix(ev, "refusals:"); ok {
+			// a long run of refused setup-code proofs on connection X (a lock-out policy may start to answer differently)
+			k, _ := strconv.Atoi(n)
+			for i := 0; i < k && !failed; i++ {
+				if !r.step("X:M1") || !r.step("X:M3-wrong-code") {
+					break
+				}
+			}
+			if failed {
+				break
+			}
+			continue
+		}
 		if !r.step(ev) {
 			break
 		}
 	}
 	return !failed
+}
+
+// c02AfterRefusals: the non-initial state "n setup-code proofs were refused" (n = 101 quick: HAP asks an accessory to
+// stop looking at proofs after 100 refusals; 300 thorough). In ONE system, after the refusals, every adversary history
+// of length 3 over the deep alphabet runs on a fresh connection each, then L's genuine exchange; the store oracle
+// runs after every event as everywhere else.
+func c02AfterRefusals(c *fw.Ctx) {
+	n := 101
+	if c.Thorough() {
+		n = 300
+	}
+	hist := []string{fmt.Sprintf("refusals:%d", n)}
+	k := 0
+	var rec func(h []string)
+	rec = func(h []string) {
+		if len(h) == 3 {
+			k++
+			for _, op := range h {
+				hist = append(hist, fmt.Sprintf("Y%d:%s", k, op))
+			}
+			return
+		}
+		for _, s := range c02Deep {
+			rec(append(append([]string{}, h...), strings.SplitN(s, ":", 2)[1]))
+		}
+	}
+	rec(nil)
+	hist = append(hist, "L:M1", "L:M3-valid", "L:M5-genuine", "X:M1", "X:M3-A-N", "X:M5-zero-key")
+	c02ExecPin(c, c02Pins[0], hist)
 }
 
 func c02Run1(c *fw.Ctx) {
@@ -494,9 +545,12 @@ func c02Run1(c *fw.Ctx) {
 	if c.Shard == 0 {
 		c02DiskFull(c)
 	}
+	if c.Shard == 1%c.NShards {
+		c02AfterRefusals(c)
+	}
 	depth := 3
 	n := 19
-	alpha := append(append([]string{}, c02Alphabet[:19]...), c02Alphabet[len(c02Alphabet)-2:]...)
+	alpha := append(append([]string{}, c02Alphabet[:20]...), c02Alphabet[len(c02Alphabet)-2:]...)
 	if c.Thorough() {
 		depth, alpha = 4, c02Alphabet
 	}
@@ -576,7 +630,7 @@ func init() {
 	fw.Register(&fw.Check{
 		ID:    "C02",
 		Level: "model_checking",
-		Rule:  "every history of length 3 (quick, 21 symbols) / 4 (thorough, 26 symbols), plus every adversary-only history of length 5 (quick) / 7 (thorough) over 6 symbols around rejected SRP public keys, plus — from the non-initial state 'L has completed pairing' — every adversary history of length 2 (quick) / 3 (thorough) over 7 replay symbols, and — from the state 'L has proved the code and not yet exchanged keys' — every history of length 2 / 3 over the whole alphabet; successive systems of a worker process alternate between two setup codes and the adversary's wrong code is the other one, over the pair-setup alphabet on a legitimate connection L (knows the code) and an adversary connection X (sees all bytes, owns its keys, does not know the code): start; verify with right code, wrong code, A = 0 / N / 2N, proof missing, A missing, L's verify replayed, A = 0 with the proof for an empty session key; key-exchange genuine, L's genuine key-exchange delivered on another connection, sealed under the all-zero key / HKDF of an empty secret / the wrong-code secret / a random key, 0- and 15-byte payloads, tag flipped, L's key-exchange replayed; unknown method and states; reopen. Real transport over TCP with real SRP; a fresh system per history; after EVERY event the stored pairings (read through the database) must equal the model: the accessory's own entity plus exactly (L's id, L's key) iff L completed start → right-code verify → genuine key-exchange consecutively on its connection; proofs and M6 payloads must appear only when the model allows. In alternate systems the legitimate controller has a 124-byte identifier. A genuine key exchange during which the storage refuses every write (RLIMIT_FSIZE 0) leaves the pairings that existed before in place. Plus interleavings of the real /pair-setup and /pair-verify handlers of two connections under a cooperative scheduler (subprocess built with the overlay; scheduling points = every log statement of the library, every mutex Lock in hap and crypto, and the arrival of each request), iterative preemption bounding to 2 (quick) / 3 (thorough), and once more with a scheduling point before EVERY statement of hc's packages and one preemption: two genuine key exchanges at once, a genuine key exchange next to a paired controller's pair-verify, next to an adversary's requests; after every schedule the stored pairings must be exactly those delivered. states = histories executed (each judges all its prefixes), distinct_nontrivial = distinct (event → response class) pairs",
+		Rule:  "every history of length 3 (quick, 22 symbols) / 4 (thorough, 27 symbols), plus every adversary-only history of length 5 (quick) / 7 (thorough) over 6 symbols around rejected SRP public keys, plus — from the non-initial state 'L has completed pairing' — every adversary history of length 2 (quick) / 3 (thorough) over 7 replay symbols, and — from the state 'L has proved the code and not yet exchanged keys' — every history of length 2 / 3 over the whole alphabet; successive systems of a worker process alternate between two setup codes and the adversary's wrong code is the other one, over the pair-setup alphabet on a legitimate connection L (knows the code) and an adversary connection X (sees all bytes, owns its keys, does not know the code): start; verify with right code, wrong code, A = 0 / N / 2N, proof missing, A missing, L's verify replayed, A = 0 with the proof for an empty session key; key-exchange genuine, L's genuine key-exchange delivered on another connection, sealed under the all-zero key / HKDF of an empty secret / the wrong-code secret / a random key, sealed under the all-zero key and presenting the neutral group element as long-term key with the signature that key accepts for every message, 0- and 15-byte payloads, tag flipped, L's key-exchange replayed; unknown method and states; reopen. Real transport over TCP with real SRP; a fresh system per history; after EVERY event the stored pairings (read through the database) must equal the model: the accessory's own entity plus exactly (L's id, L's key) iff L completed start → right-code verify → genuine key-exchange consecutively on its connection; proofs and M6 payloads must appear only when the model allows. In alternate systems the legitimate controller has a 124-byte identifier with letters of both cases and bytes that are not valid UTF-8. From the non-initial state '101 (thorough 300) setup-code proofs were refused', in one system: every adversary history of length 3 over the 6 deep symbols, each on a fresh connection, then L's genuine exchange. A genuine key exchange during which the storage refuses every write (RLIMIT_FSIZE 0) leaves the pairings that existed before in place. Plus interleavings of the real /pair-setup and /pair-verify handlers of two connections under a cooperative scheduler (subprocess built with the overlay; scheduling points = every log statement of the library, every mutex Lock in hap and crypto, and the arrival of each request), iterative preemption bounding to 2 (quick) / 3 (thorough), and once more with a scheduling point before EVERY statement of hc's packages and one preemption: two genuine key exchanges at once, a genuine key exchange next to a paired controller's pair-verify, next to an adversary's requests; after every schedule the stored pairings must be exactly those delivered. states = histories executed (each judges all its prefixes), distinct_nontrivial = distinct (event → response class) pairs",
 		Run:   c02Run1,
 		Replay: func(c *fw.Ctx, raw json.RawMessage) {
 			var pc pschedCase
